@@ -463,7 +463,13 @@ func (bf *boundsFn) affOf1(v ssa.Value) aff {
 			case "cap":
 				// cap ≥ len; as an upper bound it is useless, as a value treat opaque
 			case "copy":
-				// copy returns min(len(dst), len(src)) ≤ both; opaque atom
+				// copy returns min(len(dst), len(src)): an atom bounded by both
+				if len(x.Call.Args) == 2 {
+					n := affAtom(ssa.Value(x))
+					bf.global = append(bf.global, n,
+						bf.lenAff(x.Call.Args[0]).add(n, -1),
+						bf.lenAff(x.Call.Args[1]).add(n, -1))
+				}
 			}
 		}
 	}
